@@ -145,6 +145,16 @@ CLAIMED["C18"] = ("property-based fault injection (Hypothesis): generated contex
                   "oracle in exec/faults.c, gcc sanitizers. Sampled, not exhaustive, over argument and context "
                   "combinations; per-(routine,k) hit counts are in the evidence file.")
 
+CLAIMED["C02"] = sync_entry("machine-context canaries around every operation of every ULT (assembly trampoline: live "
+                            "seed-derived values in rbx, rbp, r12-r15, MXCSR control bits, x87 control word and a block of "
+                            "the ULT's stack, compared after the operation and whatever switches it performed), an atomic "
+                            "in-operation flag and a double program counter (stack + heap) that expose a ULT running on two "
+                            "streams or resumed from a stale context, an entry shim checking rsp % 16 == 8 for every work-unit "
+                            "function, stack pattern/disjointness checks; over all directed-switch primitives x started / "
+                            "never-started targets x stack provenance (pool, malloc'ed odd sizes, user stacks at 8-byte "
+                            "offsets) and over ULTs in pools shared by several streams (yield, suspend/resume, join hand-off, "
+                            "mutex, eventual)", "DESIGN.md section 5 (C02)")
+
 NOT_BUILT = "check not built yet in this session (see DESIGN.md section 10 for the build order)"
 
 
